@@ -73,6 +73,11 @@ CHECKS = {
    text="Exploration. For every corpus presentation with <= 4 generators (free, free abelian, surface, Klein bottle, triangle, PSL2(Z), Baumslag-Solitar, Coxeter, polyhedral, dihedral, abelian, dicyclic groups) and every index bound k for which p(k)*(k!)^(gens-1) stays within the budget (3e6 quick, 3e8 thorough; e.g. F2 k <= 7, F3 k <= 5/6, Z^3 k <= 5/6): every listed table is complete, has <= k rows, is a transitive action in which every relator fixes every row; the canonical forms (minimum BFS relabelling over all base points, a complete invariant of the action up to equivalence) are pairwise different and, per index, equal as a set to the canonical forms of ALL transitive homomorphisms into S_j found by brute force (first generator up to cycle type, relator pruning). The brute force itself must reproduce the literature sequences for F1, F2, F3, Z^2, Z^3 and PSL2(Z), else the run is inconclusive.",
    note="Trusted: own permutation brute force and BFS canonical form. Completeness is decided only up to the brute-force bound.",
    design="§4 C12"),
+ "C13": dict(
+   technique="differential testing of stabiliser / core / intersection routines on all low-index tables of a presentation corpus and every base row; oracles = reference Todd-Coxeter (index and based action), textbook Reidemeister-Schreier, Smith normal form, brute-force subgroup-class counts, own permutation-group closure and product-action orbit",
+   text="Exploration. Inputs are valid transitive tables (low-index tables of every corpus group with <= 4 generators up to index 7/8, re-validated by the harness and passed to the crate as plain data), every base row, pairs of tables of one group, and test words (all short reduced words, proptest-generated words of length <= 12 and their kernel powers u^ord(u)). Stabiliser: every returned generator fixes the base row; the subgroup they generate has exactly the table's index and the same based action (reference Todd-Coxeter over the returned words); every returned relator is trivial in G after substitution (exactly, in the regular representation, when G is finite); the presented group has order |G|/rows when finite, and otherwise the same abelianisation (BigInt SNF) and the same numbers of subgroup classes of index 1..3 as the harness's own Reidemeister-Schreier presentation. Core: transitive, relators hold, row count = order of the permutation group generated by the columns (own closure), word fixes all rows of the input <=> fixes row 0 of the core, and then fixes every core row (regular). Intersection: row count = orbit of (0,0) in the product action (own BFS), word fixes its row 0 <=> fixes row 0 of both inputs.",
+   note="Trusted: reference Todd-Coxeter, Reidemeister-Schreier, SNF and brute-force class counts of the harness. Isomorphism of infinite stabilisers is decided through invariants only (as the statement says). Row-limit overruns of reference enumerations are skipped and counted.",
+   design="§4 C13"),
 }
 
 NOT_YET = "check not built yet in this session (work in progress; see DESIGN.md §4 for its design)"
